@@ -1,4 +1,5 @@
 import OrdModel.Proofs.TextDecimal
+import OrdModel.Proofs.TextDecimalFixed
 /-!
 # C34 — Displayed rune amounts parse back to the same amount
 
@@ -184,6 +185,62 @@ theorem c34_parse_convert_total_fails :
     parseToInteger "340282366920938463463374607431768211455.5".toList 1 =
       .panic "mul@integer*10^scale" := by decide
 
+
+/-! ## After `notes/fix-decimal.diff` (model `Num/Decimal_fixed.lean`): the full statements -/
+
+def parseToIntegerFixed (s : List Char) (d : Nat) : Outcome Nat :=
+  match DecimalFixed.fromStr s with
+  | .ok dec => toInteger dec d
+  | .err e => .err e
+  | .panic p => .panic p
+
+/-- clause 1 for the repaired parser -/
+theorem c34_print_parse_roundtrip_fixed (a d : Nat) (ha : a < 2 ^ 128) (hd : d ≤ 38) :
+    ∃ s, Pile.printNumber a d = .ok s ∧ parseToIntegerFixed s d = .ok a := by
+  have hp := pow_le_U128 hd
+  obtain ⟨s, dec, h1, h2, h3, h4⟩ := DecimalFixed.fromStr_printScaled a d ha hp
+  refine ⟨s, ?_, ?_⟩
+  · unfold Pile.printNumber
+    have : ¬ U128 ≤ 10 ^ d := by omega
+    simp only [this, if_false, h1]
+  · unfold parseToIntegerFixed
+    rw [h2]
+    unfold toInteger
+    have c1 : ¬ d < dec.scale := by omega
+    have hle : 10 ^ (d - dec.scale) ≤ 10 ^ d := Nat.pow_le_pow_right (by omega) (by omega)
+    have c2 : ¬ U128 ≤ 10 ^ (d - dec.scale) := by omega
+    have c3 : ¬ U128 ≤ a := by unfold U128; omega
+    simp only [c1, c2, c3, if_false, h4]
+
+/-- clause 2 composed with parsing, **full** (every string), for the repaired parser: never a
+panic; a successful conversion is exactly the denoted number of base units -/
+theorem c34_parse_convert_exact_fixed (s : List Char) (d : Nat) :
+    (∀ site, parseToIntegerFixed s d ≠ .panic site) ∧
+    (∀ v, parseToIntegerFixed s d = .ok v →
+      ∃ num den, Denotes s num den ∧ v * 10 ^ den = num * 10 ^ d ∧ v < 2 ^ 128) := by
+  constructor
+  · intro site
+    unfold parseToIntegerFixed
+    cases hf : DecimalFixed.fromStr s with
+    | err e => simp
+    | panic p => exact absurd hf (DecimalFixed.fromStr_ne_panic s p)
+    | ok dec => exact c34_to_integer_total dec d site
+  · intro v h
+    unfold parseToIntegerFixed at h
+    cases hf : DecimalFixed.fromStr s with
+    | err e => simp [hf] at h
+    | panic e => simp [hf] at h
+    | ok dec =>
+      simp only [hf] at h
+      obtain ⟨num, den, hden, hv, _, _⟩ := DecimalFixed.fromStr_ok_denotes hf
+      obtain ⟨hsc, hex, hlt⟩ := c34_to_integer_exact dec d v h
+      refine ⟨num, den, hden, ?_, hlt⟩
+      have hpos : 0 < 10 ^ dec.scale := Nat.pow_pos (by omega)
+      apply Nat.eq_of_mul_eq_mul_right hpos
+      calc v * 10 ^ den * 10 ^ dec.scale = (v * 10 ^ dec.scale) * 10 ^ den := by grind
+        _ = (dec.value * 10 ^ den) * 10 ^ d := by rw [hex]; grind
+        _ = num * 10 ^ d * 10 ^ dec.scale := by rw [hv]; grind
+
 /-! Non-vacuity -/
 example : Pile.printNumber 1100 3 = .ok "1.1".toList := by
   simp [Pile.printNumber, printScaled, stripZeros, padZeros, natDigits, digitChar, U128]
@@ -198,5 +255,7 @@ example : FractionUnsigned "123.456".toList := by
   intro i f h; have : splitOnce '.' "123.456".toList = some ("123".toList, "456".toList) := by decide
   rw [this] at h; simp only [Option.some.injEq, Prod.mk.injEq] at h; obtain ⟨_, rfl⟩ := h; decide
 example : parseToInteger "123.456".toList 6 = .ok 123456000 := by decide
+example : parseToIntegerFixed "123.456".toList 6 = .ok 123456000 := by decide
+example : parseToIntegerFixed "1.+5".toList 2 = .err "invalid digit found in string" := by decide
 
 end Ord.Decimal
